@@ -83,7 +83,10 @@ def polynomial_from_attributes(
         retain_names=retain_names,
     )
     if coefficients:
-        dtype = coefficients[0].dtype if dtype is None else dtype
+        # like numpy.array on the coefficients together: common type and shape
+        if dtype is None:
+            dtype = numpy.result_type(*coefficients)
+        coefficients = list(numpy.broadcast_arrays(*coefficients))
         shape = coefficients[0].shape
     else:
         dtype = dtype if dtype else int
